@@ -369,3 +369,22 @@ func isTimeCmpFact(f Fact) (timeCmp, bool) {
 
 var _ = token.EQL
 var _ *ssa.Function
+
+// loopShape: how a path went through the loop over `coll` — recognises the range idiom (index phi from -1) and
+// the classic index idiom (from 0).
+type loopShape struct {
+	Zero      bool // zero iterations
+	Gen       bool // went through the generic iteration
+	Exhausted bool // left by exhaustion after the generic iteration
+}
+
+func loopShapeOf(atoms map[string]bool, coll string) loopShape {
+	l := "len(" + coll + ")"
+	var s loopShape
+	s.Zero = atoms["!(0 < "+l+")"]
+	rangeGen := atoms["(i* + 1) < "+l]
+	idxGen := atoms["i* < "+l]
+	s.Gen = rangeGen || idxGen
+	s.Exhausted = (rangeGen && atoms["!(((i* + 1) + 1) < "+l+")"]) || (idxGen && atoms["!((i* + 1) < "+l+")"])
+	return s
+}
